@@ -55,7 +55,7 @@ def gen(
     conds=(1.0, 1e2),
     info_kinds=("spd", "spd", "blockdiag", "diag"),
     world=(1.0,),
-    features=("parallel", "reversed", "permute", "ids", "multifixed", "custom", "rn_lm_offsets", "quat-signs"),
+    features=("parallel", "reversed", "permute", "ids", "multifixed", "custom", "rn_lm_offsets", "quat-signs", "lm_odo"),
     fixed_mode="wellposed",
     rot_step=1.0,
     custom_flavour="ana",
@@ -146,6 +146,11 @@ def gen(
             z = [a + rnd.uniform(-nt, nt) for a in _f(R.act(base, T, lms[l]))]
             edges.append({"t": "lm", "fl": None, "ix": [i, npose + l], "z": {"k": pk, "v": z}, "off": {"k": base, "v": _f(off)}, "info": info_for(R.CDIM[pk])})
 
+    if nlm >= 2 and "lm_odo" in features and g.boolean():
+        for _ in range(rnd.randint(1, 2)):
+            a, b = rnd.sample(range(nlm), 2)
+            z = [lms[b][t] - lms[a][t] + rnd.uniform(-nt, nt) for t in range(R.PDIM[base])]
+            edges.append({"t": "odo", "fl": None, "ix": [npose + a, npose + b], "z": {"k": pk, "v": z}, "off": None, "info": info_for(R.CDIM[pk])})
     allk = [base] * npose + [pk] * nlm
     alltruth = [list(t) for t in truth] + [list(l) for l in lms]
     nv = npose + nlm
